@@ -21,6 +21,9 @@
 (*                        the RE-ENCODED text, not the received one        *)
 (*   CurveBlindES         ES256/384/512 verification does not check that   *)
 (*                        the key's curve is the one of the algorithm      *)
+(*                        (F19-alg-curve; repaired in the code: the        *)
+(*                        consumers call jwx.ValidateKeyForAlgorithm,      *)
+(*                        FALSE in the descriptive configuration since)    *)
 (*   ApiTokenAnySignature tokenV2 wants >= 1 secure signature, not = 1     *)
 (*   DagAcceptsPrivateJWK ParseTransaction accepts an embedded private key *)
 (*   DagIgnoresExtraSegments  jws.Parse/Verify read the first three        *)
